@@ -20,8 +20,12 @@ TIMEOUT = {"quick": 900, "thorough": 5400}
 CONFIGS = ["Borda", "BordaBucket", "PickAPerm", "Copeland", "KwikSort", "BioConsert", "BioCo", "BioConsert[Borda]",
            "BioConsert[PickAPerm]", "BioConsert[Copeland,KwikSort]", "BioConsert[Borda,PickAPerm]", "ParCons",
            "ParCons(BioCo;0)", "ParCons(BioConsert[Borda];0)", "ParCons(KwikSort;2)", "ParCons(Borda;0)",
-           "ParCons(PickAPerm;0)", "Pulp", "Exact", "ExactNoOpt", "BioConsert[Exact,Borda]", "BioConsert[ParCons,PickAPerm]"]
-IFF = {"Borda", "BordaBucket", "PickAPerm", "BioConsert[Borda]", "BioConsert[PickAPerm]", "BioCo",
+           "ParCons(PickAPerm;0)", "Pulp", "Exact", "ExactNoOpt", "BioConsert[Exact,Borda]", "BioConsert[ParCons,PickAPerm]",
+           "BioConsert[set:Borda]", "BioConsert[dictvalues:Copeland,PickAPerm]", "BioConsert[tuple:PickAPerm,KwikSort]",
+           "BioConsert[frozenset:BioCo]", "BioConsert[dictkeys:Borda,Copeland]"]
+IFF = {"BioConsert[set:Borda]", "BioConsert[dictvalues:Copeland,PickAPerm]", "BioConsert[tuple:PickAPerm,KwikSort]",
+       "BioConsert[frozenset:BioCo]", "BioConsert[dictkeys:Borda,Copeland]",
+       "Borda", "BordaBucket", "PickAPerm", "BioConsert[Borda]", "BioConsert[PickAPerm]", "BioCo",
        "BioConsert[Borda,PickAPerm]", "BioConsert[Exact,Borda]", "BioConsert[ParCons,PickAPerm]"}
 STRICT_LEAVES = ("Borda", "BordaBucket", "PickAPerm", "BioCo")
 
@@ -35,7 +39,7 @@ def must_refuse(cfg, scheme):
         st, pred = call(libx.make_algorithm(cfg).is_scoring_scheme_relevant_when_incomplete_rankings, scheme)
         return st == "ok" and pred is False
     if cfg.startswith("BioConsert["):
-        return any(must_refuse(x, scheme) for x in libx.split_top(cfg[len("BioConsert["):-1]))
+        return any(must_refuse(x, scheme) for x in libx.starters_of(cfg)[1])
     return False
 
 
